@@ -198,11 +198,28 @@ ROUND67 = {
  "C19": "option propagated to every dialer and listener (sweep completeness); switch options applied for both values; endpoint inherits the receive limit exactly when its options do not set it; best-effort takes effect (from C18)",
  "C20": "set-once setters record the value on every successful return (way-sensitive for single-exit form); --file stores a whole-file read; each timeout applied from its own field",
 }
+# rule families added after seeded round 8 (DESIGN 8.5, round 8)
+ROUND8 = {
+ "C02": "no-requeue (value flow from a channel receive to a send on the same channel, every function); fail-no-peers signal re-armed where raised (from C18)",
+ "C04": "retry interval inherited by a new context (from C19)",
+ "C06": "queue rebuilt on every path after a subscription was removed (must-pass from the removal store)",
+ "C09": "originator's hop header is a freshly made zeroed slice; inproc copies (from C01)",
+ "C10": "timer discipline per *time.Timer field (who-may-Stop, who-may-arm, tear-down stops it under no condition other than 'set', on every path)",
+ "C11": "publish order: no unlocked store to a field of x after close(x.ch) in the same function",
+ "C13": "pipe options recorded whenever the connection has the datum (guards relative to the creation of the pipe object must be about the datum); redial scheduled on every loss (from C14)",
+ "C14": "timer discipline of the redial timer (only Close stops it, only pipeClosed/dial arm it); each reconnect option writes its own field (from C19)",
+ "C16": "complete-read errors are fatal: forward reachability from the err != nil branch of every io.ReadFull/binary.Read to a successful return",
+ "C17": "who-may-free table for messages kept in struct fields",
+ "C18": "deadline timer armed under no condition whose failure still reaches the wait (CFG reachability from the failing branch to the select); with best-effort on, every way into the blocking select carries the closed channel",
+ "C19": "reconnect delay reset unconditional (from C14); TTL range exact (from C09)",
+ "C20": "a received message is printed before any other socket operation or return (forward walk from each RecvMsg, success guard)",
+}
 for k, (t, x) in EXTRA.items():
     tech, text, note, ref = CLAIMED[k]
     imp = IMPORTS.get(k)
     r67 = ROUND67.get(k)
-    CLAIMED[k] = (tech + t + ("; shared mechanisms decided where they are anchored and imported: " + imp if imp else "") + ("; added after seeded rounds 6-7: " + r67 if r67 else ""), text + x, note, ref)
+    r8 = ROUND8.get(k)
+    CLAIMED[k] = (tech + t + ("; shared mechanisms decided where they are anchored and imported: " + imp if imp else "") + ("; added after seeded rounds 6-7: " + r67 if r67 else "") + ("; added after seeded round 8: " + r8 if r8 else ""), text + x, note, ref)
 
 NOT_YET = "check not built yet (work in progress; planned static rules in DESIGN.md section 4)"
 NA = {}
